@@ -1,6 +1,6 @@
 (* Data_proofs.v — theorems about Model/Data.v (C13).  Structural induction over record lists / operation
    histories: no bound on depth, fragmentation, sizes; offsets and lengths range over all of size_t. *)
-From Coq Require Import ZArith List Bool Lia.
+From Coq Require Import ZArith List Bool Lia Permutation.
 From Verif Require Import Word Data.
 Import ListNotations.
 Local Open Scope Z_scope.
@@ -733,69 +733,816 @@ Proof.
   destruct d; [assumption|]. apply dinv_fold_retain. assumption.
 Qed.
 
-(* ids handed to the library for new objects have never been used for a destroyed buffer *)
-Definition op_fresh_ok (st : state) (o : op) : Prop :=
-  match o with
-  | OCreate id _ | OConcat id _ _ | OSubrange id _ _ _ | OMap id _ | OCopyRegion id _ _ =>
-      ~ In id (dlog st) /\ heap st id = None
-  | _ => True
-  end.
-
-Lemma get_live : forall st a d, get st a = Some d -> a <> EMPTY_ID -> exists e, heap st a = Some e /\ e_obj e = d.
-Proof.
-  intros st a d H Hne. unfold get in H. destruct (Z.eqb_spec a EMPTY_ID); [congruence|].
-  destruct (heap st a) as [e|]; [|discriminate]. exists e. split; congruence.
-Qed.
-
-(* the object a deriving call returns is live, or carries an id that was never destroyed.  For results that are new
-   objects (id = fresh) this is op_fresh_ok; for results that are the operand it is liveness of the operand; for results
-   that are a record's leaf (subrange / copy_region hitting a whole leaf) it needs the reference-count invariant
-   rc = handles + records, which is NOT proved here (see Properties_C13.v). *)
-Definition result_ok (st : state) (o : op) : Prop :=
-  match step st o with
-  | Some (_, d) => heap st (obj_id d) = None -> ~ In (obj_id d) (dlog st)
-  | None => True
-  end.
-
-Lemma dinv_step : forall st o st' d, dinv st -> op_fresh_ok st o -> result_ok st o -> step st o = Some (st', d) -> dinv st'.
-Proof.
-  intros st o st' d H Hf Hr Hs. unfold result_ok in Hr. rewrite Hs in Hr.
-  destruct o; simpl in Hs, Hf.
-  - (* create *) unfold create in Hs. destruct bytes; inversion Hs; subst; clear Hs.
-    + destruct H as [Hn Hd]. destruct Hf as [Hf1 Hf2]. split; simpl; [apply NoDup_snoc; assumption|].
-      intros j Hj. apply in_app_or in Hj. destruct Hj as [Hj|[<-|[]]]; auto.
-    + destruct H as [Hn Hd]. destruct Hf as [Hf1 Hf2]. split; [assumption|]. simpl. intros j Hj.
-      destruct (Z.eq_dec j id) as [->|Hne]; [contradiction|]. rewrite hupd_other by assumption. auto.
-  - destruct (get st a), (get st b); try discriminate. destruct (concat fresh d0 d1); try discriminate.
-    inversion Hs; subst. apply dinv_adopt; assumption.
-  - destruct (get st a); try discriminate. destruct (subrange fresh d0 off len); try discriminate.
-    inversion Hs; subst. apply dinv_adopt; assumption.
-  - destruct (get st a); try discriminate. destruct (map fresh d0) as [[[? ?] ?]|]; try discriminate.
-    inversion Hs; subst. apply dinv_adopt; assumption.
-  - destruct (get st a); try discriminate. destruct (copy_region fresh d0 loc) as [[? ?]|]; try discriminate.
-    inversion Hs; subst. apply dinv_adopt; assumption.
-  - destruct (get st a); try discriminate. destruct (a =? EMPTY_ID); [inversion Hs; subst; assumption|].
-    destruct (heap st a) eqn:E; try discriminate. inversion Hs; subst. eapply dinv_upd_live; eassumption.
-  - destruct (get st a); try discriminate. inversion Hs; subst. apply dinv_retain. assumption.
-  - destruct (get st a); try discriminate. inversion Hs; subst. apply dinv_release. assumption.
-Qed.
-
-(* histories: every step uses a never-used id for a new object and returns a live-or-never-destroyed object *)
-Fixpoint history_ok (st : state) (ops : list op) : Prop :=
-  match ops with
-  | [] => True
-  | o :: rest => op_fresh_ok st o /\ result_ok st o /\
-                 match step st o with Some (st', _) => history_ok st' rest | None => True end
-  end.
-
-Theorem destructor_at_most_once : forall ops st st', dinv st -> history_ok st ops -> run st ops = Some st' ->
-  NoDup (dlog st') /\ forall k, In k (dlog st') -> heap st' k = None.
-Proof.
-  induction ops as [|o rest IH]; intros st st' H Hh Hr; simpl in *.
-  - inversion Hr; subst. exact H.
-  - destruct Hh as (Hf & Hres & Hrest). destruct (step st o) as [[st1 d]|] eqn:E; [|discriminate].
-    apply (IH st1 st'); [eapply dinv_step; eassumption|assumption|assumption].
-Qed.
 
 Lemma dinv_st0 : dinv st0.
 Proof. split; [constructor|]. intros k []. Qed.
+
+(* ================================================================= ownership: the reference-count invariant *)
+Definition cnt (k : Z) (ids : list Z) : nat := count_occ Z.eq_dec ids k.
+(* the objects in the heap, without their counts *)
+Definition objs (st : state) : Z -> option data := fun k => option_map e_obj (heap st k).
+(* number of records of object j that point at x; sum over a finite support *)
+Definition ment (o : Z -> option data) (x j : Z) : nat := match o j with Some d => cnt x (rids d) | None => 0%nat end.
+Definition inrefs (o : Z -> option data) (dom : list Z) (x : Z) : nat := list_sum (List.map (ment o x) dom).
+
+Lemma cnt_cons_ne : forall j k l, j <> k -> cnt j (k :: l) = cnt j l.
+Proof. intros. unfold cnt. simpl. destruct (Z.eq_dec k j); [congruence|reflexivity]. Qed.
+Lemma cnt_cons_eq : forall k l, cnt k (k :: l) = S (cnt k l).
+Proof. intros. unfold cnt. simpl. destruct (Z.eq_dec k k); [reflexivity|congruence]. Qed.
+Lemma cnt_zero : forall k l, ~ In k l -> cnt k l = 0%nat.
+Proof. intros. unfold cnt. apply count_occ_not_In. assumption. Qed.
+Lemma cnt_zero_inv : forall k l, cnt k l = 0%nat -> ~ In k l.
+Proof. intros k l H. unfold cnt in H. apply (count_occ_not_In Z.eq_dec). assumption. Qed.
+
+Lemma inrefs_ext : forall o o' dom x, (forall j, o' j = o j) -> inrefs o' dom x = inrefs o dom x.
+Proof. intros. unfold inrefs. f_equal. apply map_ext. intro j. unfold ment. now rewrite H. Qed.
+
+Lemma inrefs_upd_notin : forall o o' dom x k, ~ In k dom -> (forall j, j <> k -> o' j = o j) ->
+  inrefs o' dom x = inrefs o dom x.
+Proof.
+  intros. unfold inrefs. f_equal. apply map_ext_in. intros j Hj. unfold ment. rewrite H0; [reflexivity|].
+  intro; subst; contradiction.
+Qed.
+
+Lemma inrefs_upd_in : forall o o' dom x k, NoDup dom -> In k dom -> (forall j, j <> k -> o' j = o j) ->
+  (inrefs o' dom x + ment o x k = inrefs o dom x + ment o' x k)%nat.
+Proof.
+  induction dom as [|a t IH]; intros x k Hn Hi He; [contradiction|].
+  inversion Hn as [|? ? Ha Ht]; subst. unfold inrefs in *. simpl.
+  destruct (Z.eq_dec a k) as [->|Hne].
+  - pose proof (inrefs_upd_notin o o' t x k Ha He) as E. unfold inrefs in E. rewrite E. lia.
+  - destruct Hi as [?|Hi]; [congruence|]. specialize (IH x k Ht Hi He).
+    assert (ment o' x a = ment o x a) as -> by (unfold ment; now rewrite He). lia.
+Qed.
+
+Lemma list_sum_zero : forall l, list_sum l = 0%nat -> forall n, In n l -> n = 0%nat.
+Proof. induction l; simpl; intros H n Hn; [contradiction|]. destruct Hn; [lia|]. apply IHl; [lia|assumption]. Qed.
+
+Lemma no_mention : forall o dom x j d, inrefs o dom x = 0%nat -> In j dom -> o j = Some d -> ~ In x (rids d).
+Proof.
+  intros o dom x j d H Hj Ho. apply cnt_zero_inv.
+  assert (ment o x j = 0%nat) as E by (apply (list_sum_zero _ H); apply in_map; assumption).
+  unfold ment in E. now rewrite Ho in E.
+Qed.
+
+Lemma objs_upd : forall st k v dl fl j,
+  objs (mkState (hupd (heap st) k v) dl fl) j = if j =? k then option_map e_obj v else objs st j.
+Proof. intros. unfold objs, hupd. simpl. destruct (j =? k); reflexivity. Qed.
+
+Lemma objs_heap : forall st k d, objs st k = Some d -> exists e, heap st k = Some e /\ e_obj e = d.
+Proof. intros st k d H. unfold objs in H. destruct (heap st k) as [e|]; [|discriminate]. exists e. simpl in H. split; congruence. Qed.
+Lemma heap_objs : forall st k e, heap st k = Some e -> objs st k = Some (e_obj e).
+Proof. intros. unfold objs. now rewrite H. Qed.
+Lemma objs_none : forall st k, objs st k = None <-> heap st k = None.
+Proof. intros. unfold objs. destruct (heap st k); simpl; split; congruence. Qed.
+
+(* GInv st held created dom pr pl: pr = retains the library still has to perform, pl = releases it still has to perform
+   (inside dispatch_data_create_* after the new object was linked / inside _dispatch_data_dispose) *)
+Record GInv (st : state) (held : Z -> nat) (created dom pr pl : list Z) : Prop := mkGInv {
+  gi_nodup : NoDup dom;
+  gi_obj : forall k d, objs st k = Some d -> In k dom /\ k <> EMPTY_ID /\ obj_id d = k;
+  gi_domfl : forall k, In k dom -> objs st k <> None \/ In k (flog st);
+  gi_rc : forall k e, heap st k = Some e ->
+     (e_rc e + cnt k pr = held k + inrefs (objs st) dom k + cnt k pl)%nat /\ (0 < e_rc e)%nat;
+  gi_dead : forall k, objs st k = None -> held k = 0%nat /\ inrefs (objs st) dom k = 0%nat;
+  gi_recs : forall j d r, objs st j = Some d -> In r (crecs d) -> objs st (l_id (r_obj r)) = Some (DLeaf (r_obj r));
+  gi_pend : forall k, In k (pr ++ pl) -> exists l, objs st k = Some (DLeaf l);
+  gi_dinv : dinv st;
+  gi_cr : NoDup created /\ forall k, In k created <-> (In k (dlog st) \/ exists l, objs st k = Some (DLeaf l))
+}.
+
+(* two objects that differ at most in the flat flag *)
+Definition sim (d d' : data) : Prop :=
+  obj_id d' = obj_id d /\ crecs d' = crecs d /\ (forall l, d' = DLeaf l <-> d = DLeaf l).
+Lemma sim_refl : forall d, sim d d.
+Proof. intro. repeat split; auto. Qed.
+Lemma sim_rids : forall d d', sim d d' -> rids d' = rids d.
+Proof. intros d d' (_ & E & _). unfold rids. now rewrite E. Qed.
+
+(* replace the entry of a live object k by (d', n) with d' similar to the old object *)
+Lemma ginv_update : forall st held held' cr dom pr pl pr' pl' k e d' n,
+  GInv st held cr dom pr pl -> heap st k = Some e -> sim (e_obj e) d' ->
+  (forall j, j <> k -> held' j = held j /\ cnt j pr' = cnt j pr /\ cnt j pl' = cnt j pl) ->
+  (n + cnt k pr' = held' k + inrefs (objs st) dom k + cnt k pl')%nat -> (0 < n)%nat ->
+  (forall j, In j (pr' ++ pl') -> In j (pr ++ pl)) ->
+  GInv (mkState (hupd (heap st) k (Some (mkEntry d' n))) (dlog st) (flog st)) held' cr dom pr' pl'.
+Proof.
+  intros st held held' cr dom pr pl pr' pl' k e d' n G Hk Hs Hoth Heq Hn Hincl.
+  set (st' := mkState (hupd (heap st) k (Some (mkEntry d' n))) (dlog st) (flog st)).
+  pose proof (heap_objs _ _ _ Hk) as Hok. destruct Hs as (Hsid & Hsrecs & Hsleaf).
+  assert (Eo : forall j, j <> k -> objs st' j = objs st j).
+  { intros j Hj. unfold st'. rewrite objs_upd. destruct (Z.eqb_spec j k); [contradiction|reflexivity]. }
+  assert (Ek : objs st' k = Some d').
+  { unfold st'. rewrite objs_upd, Z.eqb_refl. reflexivity. }
+  assert (Ement : forall x j, ment (objs st') x j = ment (objs st) x j).
+  { intros x j. unfold ment. destruct (Z.eq_dec j k) as [->|Hj]; [|now rewrite Eo].
+    rewrite Ek, Hok. unfold rids. now rewrite Hsrecs. }
+  assert (Ein : forall x, inrefs (objs st') dom x = inrefs (objs st) dom x).
+  { intro x. unfold inrefs. f_equal. apply map_ext. intro j. apply Ement. }
+  assert (Eleaf : forall j, (exists l, objs st' j = Some (DLeaf l)) <-> (exists l, objs st j = Some (DLeaf l))).
+  { intro j. destruct (Z.eq_dec j k) as [->|Hj]; [|now rewrite Eo].
+    rewrite Ek, Hok. split; intros [l E]; exists l.
+    - assert (E' : d' = DLeaf l) by congruence. f_equal. apply (proj1 (Hsleaf l)). assumption.
+    - assert (E' : e_obj e = DLeaf l) by congruence. f_equal. apply (proj2 (Hsleaf l)). assumption. }
+  destruct G as [Gn Go Gd Gr Gde Grec Gp Gdi Gc].
+  constructor.
+  - assumption.
+  - intros j d Hj. destruct (Z.eq_dec j k) as [->|Hne].
+    + rewrite Ek in Hj. inversion Hj; subst. destruct (Go k _ Hok) as (A & B & C). repeat split; try assumption. congruence.
+    + rewrite Eo in Hj by assumption. auto.
+  - intros j Hj. destruct (Z.eq_dec j k) as [->|Hne]; [left; rewrite Ek; discriminate|].
+    rewrite Eo by assumption. simpl. auto.
+  - intros j ej Hj. rewrite Ein. simpl in Hj. destruct (Z.eq_dec j k) as [->|Hne].
+    + rewrite hupd_same in Hj. inversion Hj; subst. simpl. split; assumption.
+    + rewrite hupd_other in Hj by assumption. destruct (Hoth j Hne) as (-> & -> & ->). auto.
+  - intros j Hj. rewrite Ein. destruct (Z.eq_dec j k) as [->|Hne]; [rewrite Ek in Hj; discriminate|].
+    rewrite Eo in Hj by assumption. destruct (Hoth j Hne) as (-> & _). auto.
+  - intros j d r Hj Hr.
+    assert (Hold : objs st (l_id (r_obj r)) = Some (DLeaf (r_obj r))).
+    { destruct (Z.eq_dec j k) as [->|Hne].
+      - rewrite Ek in Hj. inversion Hj; subst. apply (Grec k (e_obj e)); [assumption|]. now rewrite <- Hsrecs.
+      - rewrite Eo in Hj by assumption. eapply Grec; eassumption. }
+    destruct (Z.eq_dec (l_id (r_obj r)) k) as [Ekk|Hne]; [|now rewrite Eo].
+    rewrite Ekk in *. rewrite Ek. rewrite Hok in Hold. assert (Hd : e_obj e = DLeaf (r_obj r)) by congruence.
+    f_equal. apply (proj2 (Hsleaf (r_obj r))). assumption.
+  - intros j Hj. apply Eleaf. apply Gp. apply Hincl. assumption.
+  - eapply dinv_upd_live; eassumption.
+  - destruct Gc as [Gc1 Gc2]. split; [assumption|]. intro j. rewrite Eleaf. apply Gc2.
+Qed.
+
+Lemma dinv_free_leaf : forall st k e, dinv st -> heap st k = Some e ->
+  dinv (mkState (hupd (heap st) k None) (dlog st ++ [k]) (flog st ++ [k])).
+Proof.
+  intros st k e [Hn Hd] E. split; simpl.
+  - apply NoDup_snoc; [assumption|]. intro Hi. rewrite (Hd _ Hi) in E. discriminate.
+  - intros j Hj. apply in_app_or in Hj. destruct Hj as [Hj|[<-|[]]].
+    + destruct (Z.eq_dec j k) as [->|Hne]; [apply hupd_same|]. rewrite hupd_other by assumption. auto.
+    + apply hupd_same.
+Qed.
+
+Lemma dinv_free_comp : forall st k fl, dinv st -> dinv (mkState (hupd (heap st) k None) (dlog st) fl).
+Proof.
+  intros st k fl [Hn Hd]. split; [assumption|]. simpl. intros j Hj.
+  destruct (Z.eq_dec j k) as [->|Hne]; [apply hupd_same|]. rewrite hupd_other by assumption. auto.
+Qed.
+
+Lemma dinv_insert : forall st f e, dinv st -> ~ In f (dlog st) ->
+  dinv (mkState (hupd (heap st) f (Some e)) (dlog st) (flog st)).
+Proof.
+  intros st f e [Hn Hd] Hf. split; [assumption|]. simpl. intros j Hj.
+  destruct (Z.eq_dec j f) as [->|Hne]; [contradiction|]. rewrite hupd_other by assumption. auto.
+Qed.
+
+(* a leaf whose count reaches zero is removed and its destructor is logged *)
+Lemma ginv_remove_leaf : forall st held held' cr dom pr pl pr' pl' k l,
+  GInv st held cr dom pr pl -> objs st k = Some (DLeaf l) ->
+  (forall j, j <> k -> held' j = held j /\ cnt j pr' = cnt j pr /\ cnt j pl' = cnt j pl) ->
+  held' k = 0%nat -> inrefs (objs st) dom k = 0%nat -> ~ In k (pr' ++ pl') ->
+  (forall j, In j (pr' ++ pl') -> In j (pr ++ pl)) ->
+  GInv (mkState (hupd (heap st) k None) (dlog st ++ [k]) (flog st ++ [k])) held' cr dom pr' pl'.
+Proof.
+  intros st held held' cr dom pr pl pr' pl' k l G Hok Hoth Hh Hin Hnp Hincl.
+  set (st' := mkState (hupd (heap st) k None) (dlog st ++ [k]) (flog st ++ [k])).
+  destruct (objs_heap _ _ _ Hok) as (e & Hk & He).
+  assert (Eo : forall j, j <> k -> objs st' j = objs st j).
+  { intros j Hj. unfold st'. rewrite objs_upd. destruct (Z.eqb_spec j k); [contradiction|reflexivity]. }
+  assert (Ek : objs st' k = None).
+  { unfold st'. rewrite objs_upd, Z.eqb_refl. reflexivity. }
+  destruct G as [Gn Go Gd Gr Gde Grec Gp Gdi Gc].
+  destruct (Go _ _ Hok) as (Hkd & Hk0 & _).
+  assert (Ein : forall x, inrefs (objs st') dom x = inrefs (objs st) dom x).
+  { intro x. pose proof (inrefs_upd_in (objs st) (objs st') dom x k Gn Hkd Eo) as E.
+    unfold ment in E at 1 2. rewrite Hok, Ek in E. unfold rids in E. simpl in E. unfold cnt in E. simpl in E. lia. }
+  constructor.
+  - assumption.
+  - intros j d Hj. destruct (Z.eq_dec j k) as [->|Hne]; [rewrite Ek in Hj; discriminate|].
+    rewrite Eo in Hj by assumption. auto.
+  - intros j Hj. destruct (Z.eq_dec j k) as [->|Hne]; [right; simpl; apply in_or_app; right; left; reflexivity|].
+    rewrite Eo by assumption. simpl. destruct (Gd j Hj); [left; assumption|right; apply in_or_app; left; assumption].
+  - intros j ej Hj. rewrite Ein. simpl in Hj. destruct (Z.eq_dec j k) as [->|Hne]; [rewrite hupd_same in Hj; discriminate|].
+    rewrite hupd_other in Hj by assumption. destruct (Hoth j Hne) as (-> & -> & ->). auto.
+  - intros j Hj. rewrite Ein. destruct (Z.eq_dec j k) as [->|Hne]; [split; assumption|].
+    rewrite Eo in Hj by assumption. destruct (Hoth j Hne) as (-> & _). auto.
+  - intros j d r Hj Hr. destruct (Z.eq_dec j k) as [->|Hne]; [rewrite Ek in Hj; discriminate|].
+    rewrite Eo in Hj by assumption. pose proof (Grec j d r Hj Hr) as Hold.
+    destruct (Go _ _ Hj) as (Hjd & _).
+    assert (l_id (r_obj r) <> k).
+    { intro Ekk. apply (no_mention _ _ _ _ _ Hin Hjd Hj). rewrite <- Ekk. unfold rids.
+      apply (in_map (fun r => l_id (r_obj r))). assumption. }
+    now rewrite Eo.
+  - intros j Hj. assert (j <> k) by (intro; subst; contradiction). rewrite Eo by assumption.
+    apply Gp. apply Hincl. assumption.
+  - eapply dinv_free_leaf; eassumption.
+  - destruct Gc as [Gc1 Gc2]. split; [assumption|]. intro j. simpl. rewrite Gc2.
+    destruct (Z.eq_dec j k) as [->|Hne].
+    + rewrite Ek. split; intros _; [left; apply in_or_app; right; left; reflexivity|right; eauto].
+    + rewrite Eo by assumption. rewrite in_app_iff. simpl. intuition congruence.
+Qed.
+
+(* a composite whose count reaches zero is unlinked; its records become pending releases *)
+Lemma ginv_remove_comp : forall st held cr dom k e,
+  GInv st held cr dom [] [] -> heap st k = Some e -> (forall l, e_obj e <> DLeaf l) ->
+  e_rc e = 1%nat -> held k = 1%nat ->
+  GInv (mkState (hupd (heap st) k None) (dlog st) (flog st ++ [k])) (hdec held k) cr dom [] (rids (e_obj e)).
+Proof.
+  intros st held cr dom k e G Hk Hnl Hrc Hh.
+  set (st' := mkState (hupd (heap st) k None) (dlog st) (flog st ++ [k])).
+  pose proof (heap_objs _ _ _ Hk) as Hok.
+  assert (Eo : forall j, j <> k -> objs st' j = objs st j).
+  { intros j Hj. unfold st'. rewrite objs_upd. destruct (Z.eqb_spec j k); [contradiction|reflexivity]. }
+  assert (Ek : objs st' k = None).
+  { unfold st'. rewrite objs_upd, Z.eqb_refl. reflexivity. }
+  destruct G as [Gn Go Gd Gr Gde Grec Gp Gdi Gc].
+  destruct (Go _ _ Hok) as (Hkd & Hk0 & _).
+  assert (Ein : forall x, inrefs (objs st) dom x = (inrefs (objs st') dom x + cnt x (rids (e_obj e)))%nat).
+  { intro x. pose proof (inrefs_upd_in (objs st) (objs st') dom x k Gn Hkd Eo) as E.
+    unfold ment in E at 1 2. rewrite Hok, Ek in E. lia. }
+  assert (Hd : forall j, j <> k -> hdec held k j = held j).
+  { intros j Hj. unfold hdec. destruct (Z.eqb_spec j k); [contradiction|reflexivity]. }
+  assert (Hdk : hdec held k k = 0%nat) by (unfold hdec; rewrite Z.eqb_refl, Hh; reflexivity).
+  destruct (Gr _ _ Hk) as (Hrk & _). simpl in Hrk. rewrite Hrc, Hh in Hrk.
+  constructor.
+  - assumption.
+  - intros j d Hj. destruct (Z.eq_dec j k) as [->|Hne]; [rewrite Ek in Hj; discriminate|].
+    rewrite Eo in Hj by assumption. auto.
+  - intros j Hj. destruct (Z.eq_dec j k) as [->|Hne]; [right; simpl; apply in_or_app; right; left; reflexivity|].
+    rewrite Eo by assumption. simpl. destruct (Gd j Hj); [left; assumption|right; apply in_or_app; left; assumption].
+  - intros j ej Hj. simpl in Hj. destruct (Z.eq_dec j k) as [->|Hne]; [rewrite hupd_same in Hj; discriminate|].
+    rewrite hupd_other in Hj by assumption. destruct (Gr _ _ Hj) as (A & B). simpl in A.
+    rewrite Hd by assumption. rewrite (Ein j) in A. split; [simpl; lia|assumption].
+  - intros j Hj. destruct (Z.eq_dec j k) as [->|Hne].
+    + split; [assumption|]. pose proof (Ein k). lia.
+    + rewrite Eo in Hj by assumption. destruct (Gde _ Hj) as (A & B). rewrite Hd by assumption.
+      pose proof (Ein j). split; [assumption|lia].
+  - intros j d r Hj Hr. destruct (Z.eq_dec j k) as [->|Hne]; [rewrite Ek in Hj; discriminate|].
+    rewrite Eo in Hj by assumption. pose proof (Grec j d r Hj Hr) as Hold.
+    assert (l_id (r_obj r) <> k).
+    { intro Ekk. rewrite Ekk, Hok in Hold. inversion Hold as [Hx]. apply (Hnl _ Hx). }
+    now rewrite Eo.
+  - intros j Hj. simpl in Hj. unfold rids in Hj. apply in_map_iff in Hj. destruct Hj as (r & <- & Hr).
+    pose proof (Grec k _ r Hok Hr) as Hold.
+    assert (l_id (r_obj r) <> k).
+    { intro Ekk. rewrite Ekk, Hok in Hold. inversion Hold as [Hx]. apply (Hnl _ Hx). }
+    exists (r_obj r). now rewrite Eo.
+  - apply dinv_free_comp. assumption.
+  - destruct Gc as [Gc1 Gc2]. split; [assumption|]. intro j. simpl. rewrite Gc2.
+    destruct (Z.eq_dec j k) as [->|Hne]; [|now rewrite Eo].
+    rewrite Ek, Hok. split; intros [A|[l A]]; auto; try discriminate. inversion A as [Hx]. exfalso. apply (Hnl _ Hx).
+Qed.
+
+(* a new object is linked under a never-used id; the retains of its records are pending *)
+Lemma ginv_insert : forall st held cr dom f d,
+  GInv st held cr dom [] [] -> f <> EMPTY_ID -> objs st f = None -> ~ In f (dlog st) -> ~ In f (flog st) ->
+  obj_id d = f -> (forall r, In r (crecs d) -> objs st (l_id (r_obj r)) = Some (DLeaf (r_obj r))) ->
+  GInv (mkState (hupd (heap st) f (Some (mkEntry d 1%nat))) (dlog st) (flog st)) (hinc held f)
+       (match d with DLeaf _ => cr ++ [f] | _ => cr end) (f :: dom) (rids d) [].
+Proof.
+  intros st held cr dom f d G Hf0 Hof Hfd Hff Hid Hrecs.
+  set (st' := mkState (hupd (heap st) f (Some (mkEntry d 1%nat))) (dlog st) (flog st)).
+  assert (Eo : forall j, j <> f -> objs st' j = objs st j).
+  { intros j Hj. unfold st'. rewrite objs_upd. destruct (Z.eqb_spec j f); [contradiction|reflexivity]. }
+  assert (Ek : objs st' f = Some d).
+  { unfold st'. rewrite objs_upd, Z.eqb_refl. reflexivity. }
+  destruct G as [Gn Go Gd Gr Gde Grec Gp Gdi Gc].
+  assert (Hfdom : ~ In f dom).
+  { intro Hi. destruct (Gd _ Hi); [congruence|contradiction]. }
+  assert (Hlive : forall j, In j (rids d) -> exists l, objs st j = Some (DLeaf l)).
+  { intros j Hj. unfold rids in Hj. apply in_map_iff in Hj. destruct Hj as (r & <- & Hr). eauto. }
+  assert (Hnf : forall j, objs st j = None -> cnt j (rids d) = 0%nat).
+  { intros j Hj. apply cnt_zero. intro Hi. destruct (Hlive _ Hi) as [l E]. congruence. }
+  assert (Ein : forall x, inrefs (objs st') (f :: dom) x = (cnt x (rids d) + inrefs (objs st) dom x)%nat).
+  { intro x. unfold inrefs at 1. simpl. unfold ment at 1. rewrite Ek. f_equal.
+    apply (inrefs_upd_notin (objs st) (objs st') dom x f Hfdom Eo). }
+  assert (Hh : forall j, j <> f -> hinc held f j = held j).
+  { intros j Hj. unfold hinc. destruct (Z.eqb_spec j f); [contradiction|reflexivity]. }
+  destruct (Gde _ Hof) as (Hhf & Hif).
+  constructor.
+  - constructor; assumption.
+  - intros j d0 Hj. destruct (Z.eq_dec j f) as [->|Hne].
+    + rewrite Ek in Hj. assert (d0 = d) by congruence. subst d0. repeat split; auto. now left.
+    + rewrite Eo in Hj by assumption. destruct (Go _ _ Hj) as (A & B & C). repeat split; auto. now right.
+  - intros j [<-|Hj]; [left; rewrite Ek; discriminate|].
+    assert (j <> f) by (intro; subst; contradiction). rewrite Eo by assumption. simpl. auto.
+  - intros j ej Hj. rewrite Ein. simpl in Hj. destruct (Z.eq_dec j f) as [->|Hne].
+    + rewrite hupd_same in Hj. assert (ej = mkEntry d 1%nat) by congruence. subst ej. simpl. unfold hinc. rewrite Z.eqb_refl, Hhf, Hif.
+      rewrite (Hnf f Hof). split; lia.
+    + rewrite hupd_other in Hj by assumption. destruct (Gr _ _ Hj) as (A & B). simpl in A.
+      rewrite Hh by assumption. split; [simpl; lia|assumption].
+  - intros j Hj. destruct (Z.eq_dec j f) as [->|Hne]; [rewrite Ek in Hj; discriminate|].
+    rewrite Eo in Hj by assumption. destruct (Gde _ Hj) as (A & B). rewrite Hh by assumption. rewrite Ein, (Hnf j Hj). auto.
+  - intros j d0 r Hj Hr.
+    assert (Hold : objs st (l_id (r_obj r)) = Some (DLeaf (r_obj r))).
+    { destruct (Z.eq_dec j f) as [->|Hne].
+      - rewrite Ek in Hj. assert (d0 = d) by congruence. subst d0. auto.
+      - rewrite Eo in Hj by assumption. eapply Grec; eassumption. }
+    assert (l_id (r_obj r) <> f) by (intro Ekk; rewrite Ekk in Hold; congruence).
+    now rewrite Eo.
+  - intros j Hj. rewrite app_nil_r in Hj. destruct (Hlive _ Hj) as [l E].
+    assert (j <> f) by (intro; subst; congruence). exists l. now rewrite Eo.
+  - apply dinv_insert; assumption.
+  - destruct Gc as [Gc1 Gc2].
+    assert (Hfc : ~ In f cr).
+    { intro Hi. apply Gc2 in Hi. destruct Hi as [?|[l E]]; [contradiction|congruence]. }
+    destruct d as [l|id fl sz rs].
+    + split; [apply NoDup_snoc; assumption|]. intro j. simpl. rewrite in_app_iff, Gc2. simpl.
+      destruct (Z.eq_dec j f) as [->|Hne].
+      * rewrite Ek. split; intros _; [right; eauto|right; left; reflexivity].
+      * rewrite Eo by assumption. intuition congruence.
+    + split; [assumption|]. intro j. simpl. rewrite Gc2.
+      destruct (Z.eq_dec j f) as [->|Hne]; [|now rewrite Eo].
+      rewrite Ek, Hof. split; intros [A|[l A]]; auto; discriminate.
+Qed.
+
+Lemma fold_left_map_eq : forall (A B S : Type) (g : S -> B -> S) (f : A -> B) l s,
+  fold_left (fun s r => g s (f r)) l s = fold_left g (List.map f l) s.
+Proof. induction l; intros; simpl; [reflexivity|apply IHl]. Qed.
+
+Lemma retain_pending : forall st held cr dom k pr,
+  GInv st held cr dom (k :: pr) [] -> GInv (retain_id st k) held cr dom pr [].
+Proof.
+  intros st held cr dom k pr G.
+  destruct (gi_pend _ _ _ _ _ _ G k ltac:(left; reflexivity)) as [l Hok].
+  destruct (objs_heap _ _ _ Hok) as (e & Hk & He).
+  destruct (gi_obj _ _ _ _ _ _ G _ _ Hok) as (_ & Hk0 & _).
+  destruct (gi_rc _ _ _ _ _ _ G _ _ Hk) as (Heq & Hpos). rewrite cnt_cons_eq in Heq.
+  unfold retain_id. destruct (Z.eqb_spec k EMPTY_ID); [contradiction|]. rewrite Hk.
+  eapply ginv_update; try eassumption.
+  - apply sim_refl.
+  - intros j Hj. rewrite cnt_cons_ne by assumption. auto.
+  - simpl in *. lia.
+  - lia.
+  - intros j Hj. rewrite app_nil_r in *. now right.
+Qed.
+
+Lemma ginv_fold_retain : forall pr st held cr dom,
+  GInv st held cr dom pr [] -> GInv (fold_left retain_id pr st) held cr dom [] [].
+Proof.
+  induction pr as [|k pr IH]; intros st held cr dom G; simpl; [assumption|].
+  apply IH. apply retain_pending. assumption.
+Qed.
+
+Lemma release_pending : forall st held cr dom k pl,
+  GInv st held cr dom [] (k :: pl) -> GInv (release_leaf st k) held cr dom [] pl.
+Proof.
+  intros st held cr dom k pl G.
+  destruct (gi_pend _ _ _ _ _ _ G k ltac:(left; reflexivity)) as [l Hok].
+  destruct (objs_heap _ _ _ Hok) as (e & Hk & He).
+  destruct (gi_obj _ _ _ _ _ _ G _ _ Hok) as (_ & Hk0 & _).
+  destruct (gi_rc _ _ _ _ _ _ G _ _ Hk) as (Heq & Hpos). rewrite cnt_cons_eq in Heq. simpl in Heq.
+  unfold release_leaf. destruct (Z.eqb_spec k EMPTY_ID); [contradiction|]. rewrite Hk.
+  assert (Hrm : e_rc e = 1%nat ->
+    GInv (mkState (hupd (heap st) k None) (dlog st ++ [k]) (flog st ++ [k])) held cr dom [] pl).
+  { intro E1. rewrite E1 in Heq. eapply ginv_remove_leaf; try eassumption.
+    - intros j Hj. rewrite cnt_cons_ne by assumption. auto.
+    - lia.
+    - lia.
+    - simpl. apply cnt_zero_inv. lia.
+    - intros j Hj. simpl in *. now right. }
+  destruct (e_rc e) as [|[|m]] eqn:Erc; [lia|apply Hrm; reflexivity|].
+  eapply ginv_update; try eassumption.
+  - apply sim_refl.
+  - intros j Hj. rewrite cnt_cons_ne by assumption. auto.
+  - simpl in *. lia.
+  - lia.
+  - intros j Hj. simpl in *. now right.
+Qed.
+
+Lemma ginv_fold_release : forall pl st held cr dom,
+  GInv st held cr dom [] pl -> GInv (fold_left release_leaf pl st) held cr dom [] [].
+Proof.
+  induction pl as [|k pl IH]; intros st held cr dom G; simpl; [assumption|].
+  apply IH. apply release_pending. assumption.
+Qed.
+
+Lemma hinc_same : forall held k, hinc held k k = S (held k).
+Proof. intros. unfold hinc. now rewrite Z.eqb_refl. Qed.
+Lemma hinc_other : forall held k j, j <> k -> hinc held k j = held j.
+Proof. intros. unfold hinc. destruct (Z.eqb_spec j k); [contradiction|reflexivity]. Qed.
+Lemma hdec_same : forall held k, hdec held k k = pred (held k).
+Proof. intros. unfold hdec. now rewrite Z.eqb_refl. Qed.
+Lemma hdec_other : forall held k j, j <> k -> hdec held k j = held j.
+Proof. intros. unfold hdec. destruct (Z.eqb_spec j k); [contradiction|reflexivity]. Qed.
+
+(* dispatch_retain by the client *)
+Lemma ginv_retain_client : forall st held cr dom a e,
+  GInv st held cr dom [] [] -> heap st a = Some e -> a <> EMPTY_ID ->
+  GInv (retain_id st a) (hinc held a) cr dom [] [].
+Proof.
+  intros st held cr dom a e G Hk Ha.
+  destruct (gi_rc _ _ _ _ _ _ G _ _ Hk) as (Heq & Hpos). simpl in Heq.
+  unfold retain_id. destruct (Z.eqb_spec a EMPTY_ID); [contradiction|]. rewrite Hk.
+  eapply ginv_update; try eassumption.
+  - apply sim_refl.
+  - intros j Hj. rewrite hinc_other by assumption. auto.
+  - rewrite hinc_same. simpl. lia.
+  - lia.
+  - auto.
+Qed.
+
+(* dispatch_release by the client, who holds a reference *)
+Lemma ginv_release_client : forall st held cr dom a,
+  GInv st held cr dom [] [] -> a <> EMPTY_ID -> (0 < held a)%nat ->
+  GInv (release_id st a) (hdec held a) cr dom [] [].
+Proof.
+  intros st held cr dom a G Ha Hh.
+  destruct (heap st a) as [e|] eqn:Hk.
+  2: { apply objs_none in Hk. destruct (gi_dead _ _ _ _ _ _ G _ Hk). lia. }
+  destruct (gi_rc _ _ _ _ _ _ G _ _ Hk) as (Heq & Hpos). simpl in Heq.
+  pose proof (heap_objs _ _ _ Hk) as Hok.
+  unfold release_id. destruct (Z.eqb_spec a EMPTY_ID); [contradiction|]. rewrite Hk.
+  destruct (e_rc e) as [|[|m]] eqn:Erc; [lia| |].
+  - (* last reference *)
+    assert (Hh1 : held a = 1%nat) by lia. assert (Hi0 : inrefs (objs st) dom a = 0%nat) by lia.
+    destruct (e_obj e) as [l|id fl sz recs] eqn:Eobj.
+    + unfold release_leaf. destruct (Z.eqb_spec a EMPTY_ID); [contradiction|]. rewrite Hk, Erc.
+      eapply ginv_remove_leaf; try eassumption.
+      * intros j Hj. rewrite hdec_other by assumption. auto.
+      * rewrite hdec_same, Hh1. reflexivity.
+      * simpl. tauto.
+      * auto.
+    + rewrite fold_left_map_eq.
+      change (List.map (fun r => l_id (r_obj r)) recs) with (rids (DComp id fl sz recs)). rewrite <- Eobj.
+      apply ginv_fold_release. apply ginv_remove_comp; try assumption.
+      intros l E. rewrite Eobj in E. discriminate.
+  - eapply ginv_update; try eassumption.
+    + apply sim_refl.
+    + intros j Hj. rewrite hdec_other by assumption. auto.
+    + rewrite hdec_same. simpl. lia.
+    + lia.
+    + auto.
+Qed.
+
+(* what adopt needs to know about the object a deriving call returns *)
+Definition okres (st : state) (d : data) : Prop :=
+  obj_id d = EMPTY_ID \/ objs st (obj_id d) <> None \/
+  (objs st (obj_id d) = None /\ ~ In (obj_id d) (dlog st) /\ ~ In (obj_id d) (flog st) /\
+   forall r, In r (crecs d) -> objs st (l_id (r_obj r)) = Some (DLeaf (r_obj r))).
+
+Lemma ginv_adopt : forall st held cr dom d,
+  GInv st held cr dom [] [] -> okres st d ->
+  exists dom', GInv (adopt st d) (hinc0 held (obj_id d))
+                    (if new_leaf st d then cr ++ [obj_id d] else cr) dom' [] [].
+Proof.
+  intros st held cr dom d G Hok. unfold adopt, hinc0.
+  destruct (Z.eqb_spec (obj_id d) EMPTY_ID) as [E0|E0].
+  - exists dom. assert (new_leaf st d = false) as ->; [|assumption].
+    destruct d as [l|]; [|reflexivity]. simpl in *. rewrite E0. reflexivity.
+  - destruct (heap st (obj_id d)) as [e|] eqn:Hk.
+    + exists dom. assert (new_leaf st d = false) as ->.
+      { destruct d as [l|]; [|reflexivity]. simpl in *. rewrite Hk. apply andb_false_r. }
+      eapply ginv_retain_client; eassumption.
+    + pose proof (proj2 (objs_none _ _) Hk) as Hon.
+      destruct Hok as [?|[?|(_ & Hd & Hf & Hrecs)]]; [contradiction|contradiction|].
+      exists (obj_id d :: dom).
+      pose proof (ginv_insert st held cr dom (obj_id d) d G E0 Hon Hd Hf eq_refl Hrecs) as G1.
+      destruct d as [l|id fl sz recs].
+      * simpl in *. rewrite Hk. destruct (Z.eqb_spec (l_id l) EMPTY_ID); [contradiction|]. simpl. exact G1.
+      * simpl new_leaf. cbv iota. rewrite fold_left_map_eq. apply ginv_fold_retain. exact G1.
+Qed.
+
+(* ================================================================= where the records of a result come from (syntactic) *)
+Definition leaves_of (d : data) : list leaf := List.map r_obj (records_of d).
+Definition shape (d : data) (f : Z) (ops : list data) : Prop :=
+  d = empty \/ In d ops \/ (exists l o, In o ops /\ In l (leaves_of o) /\ d = DLeaf l) \/
+  (obj_id d = f /\ forall r, In r (crecs d) -> exists o, In o ops /\ o <> empty /\ In (r_obj r) (leaves_of o)).
+
+Lemma concat_shape : forall f a b d, concat f a b = Some d -> shape d f [a; b].
+Proof.
+  intros f a b d. unfold concat.
+  destruct (Z.eqb_spec (size a) 0) as [Ea|Ea]; [intro E; inversion E; subst; right; left; simpl; auto|].
+  destruct (Z.eqb_spec (size b) 0) as [Eb|Eb]; [intro E; inversion E; subst; right; left; simpl; auto|].
+  destruct (M64 <=? size a + size b); [discriminate|]. intro E; inversion E; subst.
+  right; right; right. split; [reflexivity|]. simpl. intros r Hr. apply in_app_or in Hr. destruct Hr as [Hr|Hr].
+  - exists a. split; [simpl; auto|]. split; [intro; subst; apply Ea; reflexivity|]. apply in_map. assumption.
+  - exists b. split; [simpl; auto|]. split; [intro; subst; apply Eb; reflexivity|]. apply in_map. assumption.
+Qed.
+
+Lemma subrange_leaf_shape : forall f l off len d, subrange_leaf f l off len = Some d ->
+  d = empty \/ d = DLeaf l \/ (obj_id d = f /\ forall r, In r (crecs d) -> r_obj r = l).
+Proof.
+  intros f l off len d. unfold subrange_leaf, subrange_body. cbn [size].
+  destruct ((off >=? leaf_size l) || (len =? 0)); [intro E; inversion E; auto|].
+  cbv zeta. destruct (negb _ && _); intro E; inversion E; subst; [auto|].
+  right; right. split; [reflexivity|]. simpl. intros r [<-|[]]. reflexivity.
+Qed.
+
+Lemma robj_upd_first : forall o rs, List.map r_obj (upd_first o rs) = List.map r_obj rs.
+Proof. intros. unfold upd_first. destruct (o =? 0); [reflexivity|]. destruct rs; reflexivity. Qed.
+Lemma robj_set_last : forall ll rs, List.map r_obj (set_last_len ll rs) = List.map r_obj rs.
+Proof.
+  induction rs as [|r t IH]; [reflexivity|]. destruct t as [|r2 t]; [reflexivity|].
+  simpl in *. f_equal. exact IH.
+Qed.
+Lemma skip_records_suffix : forall recs off rs off', skip_records recs off = (rs, off') -> exists pre, recs = pre ++ rs.
+Proof.
+  induction recs as [|r t IH]; intros off rs off' E; simpl in E.
+  - inversion E. exists []. reflexivity.
+  - destruct (off >=? r_len r).
+    + destruct (IH _ _ _ E) as [pre ->]. exists (r :: pre). reflexivity.
+    + inversion E. exists []. reflexivity.
+Qed.
+Lemma In_firstn_own : forall (A : Type) n (l : list A) x, In x (firstn n l) -> In x l.
+Proof. induction n; intros l x H; [contradiction|]. destruct l; [contradiction|]. simpl in H. destruct H; [left|right]; auto. Qed.
+
+Lemma subrange_comp_shape : forall f sz recs off len d, subrange_comp subrange_leaf f sz recs off len = Some d ->
+  d = empty \/ (exists r, In r recs /\ d = DLeaf (r_obj r)) \/
+  (obj_id d = f /\ forall r', In r' (crecs d) -> In (r_obj r') (List.map r_obj recs)).
+Proof.
+  intros f sz recs off len d. unfold subrange_comp.
+  destruct (skip_records recs off) as [rs off'] eqn:Es. destruct (skip_records_suffix _ _ _ _ Es) as [pre ->].
+  destruct rs as [|r rest]; [discriminate|].
+  destruct (u64 (off' + len) <=? r_len r).
+  - intro E. destruct (subrange_leaf_shape _ _ _ _ _ E) as [?|[?|[Hi Hr]]]; [auto| |].
+    + right; left. exists r. split; [apply in_or_app; right; left; reflexivity|assumption].
+    + right; right. split; [assumption|]. intros r' Hr'. rewrite (Hr _ Hr'). apply in_map. apply in_or_app; right; left; reflexivity.
+  - cbv zeta. destruct (u64 (off + len) =? sz).
+    + cbv beta iota. rewrite firstn_all. intro E; inversion E; subst. right; right. split; [reflexivity|]. cbn [crecs].
+      intros r' Hr'. apply (in_map r_obj) in Hr'. rewrite robj_upd_first in Hr'.
+      rewrite map_app. apply in_or_app; right. assumption.
+    + destruct (find_last rest 1 _) as [[count ll]|]; [|discriminate].
+      intro E; inversion E; subst. right; right. split; [reflexivity|]. cbn [crecs]. intros r' Hr'.
+      apply (in_map r_obj) in Hr'. rewrite robj_set_last, robj_upd_first in Hr'. rewrite <- firstn_map in Hr'.
+      apply In_firstn_own in Hr'. rewrite map_app. apply in_or_app; right. assumption.
+Qed.
+
+Lemma subrange_shape : forall f a off len d, 0 <= off -> subrange f a off len = Some d -> shape d f [a].
+Proof.
+  intros f a off len d Ho. unfold subrange, subrange_body.
+  destruct ((off >=? size a) || (len =? 0)) eqn:C1; [intro E; inversion E; left; reflexivity|].
+  apply orb_false_iff in C1. destruct C1 as [C1 _]. rewrite Z.geb_leb in C1. apply Z.leb_gt in C1.
+  assert (Hne : a <> empty) by (intro; subst; simpl in C1; unfold leaf_size in C1; simpl in C1; lia).
+  cbv zeta. destruct (negb _ && _); [intro E; inversion E; subst; right; left; simpl; auto|].
+  destruct a as [l|id fl sz recs].
+  - intro E; inversion E; subst. right; right; right. split; [reflexivity|]. simpl. intros r [<-|[]].
+    exists (DLeaf l). split; [simpl; auto|]. split; [assumption|]. simpl. auto.
+  - intro E. destruct (subrange_comp_shape _ _ _ _ _ _ E) as [?|[(r & Hr & ->)|[Hi Hr]]]; [left; assumption| |].
+    + right; right; left. exists (r_obj r), (DComp id fl sz recs). split; [simpl; auto|]. split; [|reflexivity].
+      unfold leaves_of. simpl. apply in_map. assumption.
+    + right; right; right. split; [assumption|]. intros r' Hr'. exists (DComp id fl sz recs).
+      split; [simpl; auto|]. split; [assumption|]. apply Hr. assumption.
+Qed.
+
+Lemma copy_region_leaf_shape : forall f l from sz loc acc d o, copy_region_leaf f l from sz loc acc = Some (d, o) ->
+  d = DLeaf l \/ (obj_id d = f /\ forall r, In r (crecs d) -> r_obj r = l).
+Proof.
+  intros f l from sz loc acc d o. unfold copy_region_leaf, copy_region_body, map_direct. cbn [size].
+  destruct ((from =? 0) && (sz =? leaf_size l)); [intro E; inversion E; auto|].
+  intro E; inversion E; subst. right. split; [reflexivity|]. simpl. intros r [<-|[]]. reflexivity.
+Qed.
+
+Lemma copy_walk_shape : forall f recs from offset loc acc d o,
+  copy_walk copy_region_leaf f recs from offset loc acc = Some (d, o) ->
+  exists r, In r recs /\ (d = DLeaf (r_obj r) \/ (obj_id d = f /\ forall r', In r' (crecs d) -> r_obj r' = r_obj r)).
+Proof.
+  induction recs as [|r t IH]; intros from offset loc acc d o E; simpl in E; [discriminate|].
+  destruct (from >=? r_len r).
+  - destruct (IH _ _ _ _ _ _ E) as (r0 & Hr0 & H). exists r0. split; [now right|assumption].
+  - destruct (loc >=? u64 (offset + u64 (r_len r - from))).
+    + destruct (IH _ _ _ _ _ _ E) as (r0 & Hr0 & H). exists r0. split; [now right|assumption].
+    + exists r. split; [now left|]. eapply copy_region_leaf_shape. eassumption.
+Qed.
+
+Lemma map_direct_null : forall a off dd1 from1, map_direct a off = Some (dd1, from1, None) ->
+  dd1 = a /\ exists id sz recs, a = DComp id false sz recs.
+Proof.
+  intros a off dd1 from1. unfold map_direct. destruct a as [l|id fl sz recs]; [discriminate|].
+  destruct recs as [|r [|r2 t]]; destruct fl; cbv beta iota zeta;
+    try (destruct (flatten_recs _ _)); intro E; inversion E; eauto.
+Qed.
+
+Lemma copy_region_shape : forall f a loc d o, 0 <= loc -> copy_region f a loc = Some (d, o) -> shape d f [a].
+Proof.
+  intros f a loc d o Hl. unfold copy_region.
+  destruct (loc >=? size a) eqn:C1; [intro E; inversion E; left; reflexivity|].
+  rewrite Z.geb_leb in C1. apply Z.leb_gt in C1.
+  assert (Hne : a <> empty) by (intro; subst; simpl in C1; unfold leaf_size in C1; simpl in C1; lia).
+  unfold copy_region_body. rewrite !Z.eqb_refl. cbn [andb].
+  destruct (map_direct a 0) as [[[dd1 from1] [p|]]|] eqn:Em; [intro E; inversion E; subst; right; left; simpl; auto| |discriminate].
+  destruct (map_direct_null _ _ _ _ Em) as (-> & id & sz & recs & Ea).
+  intro E. destruct (copy_walk_shape _ _ _ _ _ _ _ _ E) as (r & Hr & H). subst a. simpl in Hr.
+  destruct H as [->|[Hi Hrr]].
+  - right; right; left. exists (r_obj r), (DComp id false sz recs). split; [simpl; auto|]. split; [|reflexivity].
+    unfold leaves_of. simpl. apply in_map. assumption.
+  - right; right; right. split; [assumption|]. intros r' Hr'. exists (DComp id false sz recs).
+    split; [simpl; auto|]. split; [assumption|]. rewrite (Hrr _ Hr'). unfold leaves_of. simpl. apply in_map. assumption.
+Qed.
+
+Lemma map_shape : forall f a d p sz, map f a = Some (d, p, sz) -> shape d f [a].
+Proof.
+  intros f a d p sz. unfold map. destruct (size a =? 0); [intro E; inversion E; left; reflexivity|].
+  destruct (map_direct a 0) as [[[dd1 from1] [q|]]|]; [intro E; inversion E; subst; right; left; simpl; auto| |discriminate].
+  destruct (flatten a); [|discriminate]. intro E; inversion E; subst.
+  right; right; right. split; [reflexivity|]. simpl. intros r [].
+Qed.
+
+(* ================================================================= one call preserves the invariant *)
+Lemma leaves_live : forall st held cr dom k d0, GInv st held cr dom [] [] -> objs st k = Some d0 ->
+  forall l, In l (leaves_of d0) -> objs st (l_id l) = Some (DLeaf l).
+Proof.
+  intros st held cr dom k d0 G Hk l Hl. destruct d0 as [l0|id fl sz recs].
+  - simpl in Hl. destruct Hl as [<-|[]]. destruct (gi_obj _ _ _ _ _ _ G _ _ Hk) as (_ & _ & E). simpl in E. now rewrite E.
+  - unfold leaves_of in Hl. simpl in Hl. apply in_map_iff in Hl. destruct Hl as (r & <- & Hr).
+    eapply (gi_recs _ _ _ _ _ _ G); eassumption.
+Qed.
+
+Lemma shape_okres : forall st held cr dom f d ops, GInv st held cr dom [] [] ->
+  objs st f = None -> ~ In f (dlog st) -> ~ In f (flog st) ->
+  (forall o, In o ops -> o = empty \/ objs st (obj_id o) = Some o) -> shape d f ops -> okres st d.
+Proof.
+  intros st held cr dom f d ops G Hf Hfd Hff Hops Hs. unfold okres.
+  destruct Hs as [->|[Hin|[(l & o & Ho & Hl & ->)|[Hid Hr]]]].
+  - left. reflexivity.
+  - destruct (Hops _ Hin) as [->|E]; [left; reflexivity|right; left; congruence].
+  - destruct (Hops _ Ho) as [->|E].
+    + simpl in Hl. destruct Hl as [<-|[]]. left. reflexivity.
+    + right; left. simpl. rewrite (leaves_live _ _ _ _ _ _ G E l Hl). discriminate.
+  - right; right. rewrite Hid. split; [assumption|]. split; [assumption|]. split; [assumption|].
+    intros r Hrr. destruct (Hr _ Hrr) as (o & Ho & Hne & Hl). destruct (Hops _ Ho) as [?|E]; [contradiction|].
+    apply (leaves_live _ _ _ _ _ _ G E _ Hl).
+Qed.
+
+Lemma operand_ok : forall st held cr dom a da, GInv st held cr dom [] [] -> get st a = Some da ->
+  da = empty \/ objs st (obj_id da) = Some da.
+Proof.
+  intros st held cr dom a da G Hg. unfold get in Hg. destruct (a =? EMPTY_ID); [inversion Hg; auto|].
+  destruct (heap st a) as [e|] eqn:Hk; [|discriminate]. inversion Hg; subst. right.
+  pose proof (heap_objs _ _ _ Hk) as Hok. destruct (gi_obj _ _ _ _ _ _ G _ _ Hok) as (_ & _ & E). now rewrite E.
+Qed.
+
+Lemma ginv_create_empty : forall st held cr dom id, GInv st held cr dom [] [] -> heap st id = None -> ~ In id (dlog st) ->
+  GInv (mkState (heap st) (dlog st ++ [id]) (flog st)) held (cr ++ [id]) dom [] [].
+Proof.
+  intros st held cr dom id [Gn Go Gd Gr Gde Grec Gp Gdi Gc] Hh Hd.
+  constructor; try assumption.
+  - destruct Gdi as [Dn Dd]. split; simpl; [apply NoDup_snoc; assumption|].
+    intros j Hj. apply in_app_or in Hj. destruct Hj as [Hj|[<-|[]]]; auto.
+  - destruct Gc as [Gc1 Gc2].
+    assert (~ In id cr).
+    { intro Hi. apply Gc2 in Hi. destruct Hi as [?|[l E]]; [contradiction|].
+      apply (proj2 (objs_none _ _)) in Hh. unfold objs in *. congruence. }
+    split; [apply NoDup_snoc; assumption|]. intro j. simpl. rewrite !in_app_iff, Gc2. simpl.
+    change (objs (mkState (heap st) (dlog st ++ [id]) (flog st)) j) with (objs st j). tauto.
+Qed.
+
+Lemma flatten_priv_sim : forall d, sim d (flatten_priv d).
+Proof.
+  intro d. unfold flatten_priv. destruct (size d =? 0); [apply sim_refl|].
+  destruct d as [l|id fl sz recs]; [apply sim_refl|]. destruct fl; [apply sim_refl|].
+  destruct recs as [|r [|r2 t]]; try apply sim_refl; (split; [reflexivity|split; [reflexivity|intro l; split; discriminate]]).
+Qed.
+
+Definition GI (g : gstate) : Prop := exists dom, GInv (g_st g) (g_held g) (g_created g) dom [] [].
+
+Lemma GI_g0 : GI g0.
+Proof.
+  exists []. constructor; simpl; try (intros; discriminate); try (intros; contradiction).
+  - constructor.
+  - intros. split; reflexivity.
+  - apply dinv_st0.
+  - split; [constructor|]. intro k. simpl. split; [intros []|intros [[]|[l E]]; discriminate].
+Qed.
+
+Lemma derive_step : forall g f d ops, GI g -> fresh_id g f ->
+  (forall o, In o ops -> o = empty \/ objs (g_st g) (obj_id o) = Some o) -> shape d f ops ->
+  GI (mkG (adopt (g_st g) d) (hinc0 (g_held g) (obj_id d))
+          (if new_leaf (g_st g) d then g_created g ++ [obj_id d] else g_created g)).
+Proof.
+  intros g f d ops [dom G] (Hf0 & Hfh & Hfd & Hff) Hops Hs.
+  assert (Hok : okres (g_st g) d).
+  { eapply shape_okres; try eassumption. apply objs_none. assumption. }
+  destruct (ginv_adopt _ _ _ _ d G Hok) as [dom' G']. exists dom'. exact G'.
+Qed.
+
+Theorem gstep_inv : forall g o g', GI g -> legal g o -> gstep g o = Some g' -> GI g'.
+Proof.
+  intros g o g' HG Hl Hs. unfold gstep in Hs.
+  destruct (step (g_st g) o) as [[st' d]|] eqn:Es; [|discriminate].
+  destruct o; simpl in Es, Hl; inversion Hs; subst; clear Hs.
+  - (* create *)
+    destruct HG as [dom G]. destruct Hl as (Hf0 & Hfh & Hfd & Hff). unfold create in Es.
+    destruct bytes as [|b bs]; inversion Es; subst; clear Es.
+    + exists dom. simpl. apply ginv_create_empty; assumption.
+    + exists (id :: dom). simpl. unfold hinc0. destruct (Z.eqb_spec id EMPTY_ID); [contradiction|].
+      apply (ginv_insert _ _ _ _ id (DLeaf (mkLeaf id (b :: bs))) G); try assumption; try reflexivity.
+      * apply objs_none. assumption.
+      * intros r [].
+  - (* concat *)
+    destruct Hl as (Hfr & _ & _). destruct HG as [dom G].
+    destruct (get (g_st g) a) as [da|] eqn:Ea; [|discriminate]. destruct (get (g_st g) b) as [db|] eqn:Eb; [|discriminate].
+    destruct (concat fresh da db) as [d0|] eqn:Ec; [|discriminate]. inversion Es; subst; clear Es.
+    apply (derive_step g fresh d [da; db]); [exists dom; assumption|assumption| |apply concat_shape; assumption].
+    intros o [<-|[<-|[]]]; eapply operand_ok; eassumption.
+  - (* subrange *)
+    destruct Hl as (Hfr & _ & Ho & _). destruct HG as [dom G].
+    destruct (get (g_st g) a) as [da|] eqn:Ea; [|discriminate].
+    destruct (subrange fresh da off len) as [d0|] eqn:Ec; [|discriminate]. inversion Es; subst; clear Es.
+    apply (derive_step g fresh d [da]); [exists dom; assumption|assumption| |eapply subrange_shape; [|eassumption]; lia].
+    intros o [<-|[]]; eapply operand_ok; eassumption.
+  - (* map *)
+    destruct Hl as (Hfr & _). destruct HG as [dom G].
+    destruct (get (g_st g) a) as [da|] eqn:Ea; [|discriminate].
+    destruct (map fresh da) as [[[d0 p] sz]|] eqn:Ec; [|discriminate]. inversion Es; subst; clear Es.
+    apply (derive_step g fresh d [da]); [exists dom; assumption|assumption| |eapply map_shape; eassumption].
+    intros o [<-|[]]; eapply operand_ok; eassumption.
+  - (* copy_region *)
+    destruct Hl as (Hfr & _ & Ho). destruct HG as [dom G].
+    destruct (get (g_st g) a) as [da|] eqn:Ea; [|discriminate].
+    destruct (copy_region fresh da loc) as [[d0 off]|] eqn:Ec; [|discriminate]. inversion Es; subst; clear Es.
+    apply (derive_step g fresh d [da]); [exists dom; assumption|assumption| |eapply copy_region_shape; [|eassumption]; lia].
+    intros o [<-|[]]; eapply operand_ok; eassumption.
+  - (* flatten *)
+    destruct HG as [dom G]. destruct (get (g_st g) a) as [da|] eqn:Ea; [|discriminate].
+    destruct (Z.eqb_spec a EMPTY_ID); [inversion Es; subst; exists dom; assumption|].
+    destruct (heap (g_st g) a) as [e|] eqn:Hk; [|discriminate]. inversion Es; subst; clear Es.
+    assert (da = e_obj e) by (unfold get in Ea; destruct (Z.eqb_spec a EMPTY_ID); [contradiction|]; rewrite Hk in Ea; congruence).
+    subst da. exists dom. simpl.
+    destruct (gi_rc _ _ _ _ _ _ G _ _ Hk) as (Heq & Hpos).
+    eapply ginv_update; try eassumption; auto. apply flatten_priv_sim.
+  - (* retain *)
+    destruct HG as [dom G]. destruct (get (g_st g) a) as [da|] eqn:Ea; [|discriminate]. inversion Es; subst; clear Es.
+    exists dom. simpl. unfold hinc0. destruct (Z.eqb_spec a EMPTY_ID) as [->|Ha].
+    + unfold retain_id. simpl. assumption.
+    + unfold get in Ea. destruct (Z.eqb_spec a EMPTY_ID); [contradiction|].
+      destruct (heap (g_st g) a) as [e|] eqn:Hk; [|discriminate]. eapply ginv_retain_client; eassumption.
+  - (* release *)
+    destruct HG as [dom G]. destruct (get (g_st g) a) as [da|] eqn:Ea; [|discriminate]. inversion Es; subst; clear Es.
+    exists dom. simpl. unfold hdec0. destruct (Z.eqb_spec a EMPTY_ID) as [->|Ha].
+    + unfold release_id. simpl. assumption.
+    + destruct Hl as [?|Hh]; [contradiction|]. apply ginv_release_client; assumption.
+Qed.
+
+Theorem grun_inv : forall ops g g', GI g -> glegal g ops -> grun g ops = Some g' -> GI g'.
+Proof.
+  induction ops as [|o rest IH]; intros g g' HG Hl Hr; simpl in *.
+  - inversion Hr; subst. assumption.
+  - destruct Hl as (Hlo & Hrest). destruct (gstep g o) as [g1|] eqn:E; [|discriminate].
+    apply (IH g1 g'); [eapply gstep_inv; eassumption|assumption|assumption].
+Qed.
+
+(* ================================================================= the ownership theorems *)
+Lemma inrefs_pos : forall o dom x, (0 < inrefs o dom x)%nat -> exists j d, In j dom /\ o j = Some d /\ In x (rids d).
+Proof.
+  induction dom as [|a t IH]; intros x H; unfold inrefs in *; simpl in H; [lia|].
+  destruct (ment o x a) eqn:Em.
+  - destruct (IH x ltac:(simpl in H; lia)) as (j & d & Hj & Ho & Hx). exists j, d. split; [now right|auto].
+  - unfold ment in Em. destruct (o a) as [d|] eqn:Eo; [|discriminate]. exists a, d. split; [now left|]. split; [assumption|].
+    apply (count_occ_In Z.eq_dec). unfold cnt in Em. lia.
+Qed.
+
+(* a destroyed buffer: its object is gone, the client holds no reference to it, and no live object has a record on it *)
+Theorem destructor_only_after_release : forall ops g, glegal g0 ops -> grun g0 ops = Some g ->
+  forall k, In k (dlog (g_st g)) ->
+    heap (g_st g) k = None /\ g_held g k = 0%nat /\
+    (forall j e, heap (g_st g) j = Some e -> ~ In k (rids (e_obj e))).
+Proof.
+  intros ops g Hl Hr k Hk. destruct (grun_inv ops g0 g GI_g0 Hl Hr) as [dom G].
+  destruct (gi_dinv _ _ _ _ _ _ G) as [_ Hd]. pose proof (Hd _ Hk) as Hnone.
+  destruct (gi_dead _ _ _ _ _ _ G k (proj2 (objs_none _ _) Hnone)) as (Hh & Hi).
+  split; [assumption|]. split; [assumption|]. intros j e Hj.
+  pose proof (heap_objs _ _ _ Hj) as Hoj. destruct (gi_obj _ _ _ _ _ _ G _ _ Hoj) as (Hjd & _).
+  eapply no_mention; eassumption.
+Qed.
+
+(* conversely: whatever the client holds, and whatever a live object's records point at, is alive and unchanged *)
+Theorem live_while_referenced : forall ops g, glegal g0 ops -> grun g0 ops = Some g ->
+  (forall k, (0 < g_held g k)%nat -> heap (g_st g) k <> None /\ ~ In k (dlog (g_st g))) /\
+  (forall j e r, heap (g_st g) j = Some e -> In r (crecs (e_obj e)) ->
+     ~ In (l_id (r_obj r)) (dlog (g_st g)) /\
+     exists e', heap (g_st g) (l_id (r_obj r)) = Some e' /\ e_obj e' = DLeaf (r_obj r)).
+Proof.
+  intros ops g Hl Hr. destruct (grun_inv ops g0 g GI_g0 Hl Hr) as [dom G].
+  destruct (gi_dinv _ _ _ _ _ _ G) as [_ Hd]. split.
+  - intros k Hk. assert (heap (g_st g) k <> None).
+    { intro Hn. destruct (gi_dead _ _ _ _ _ _ G k (proj2 (objs_none _ _) Hn)). lia. }
+    split; [assumption|]. intro Hi. apply H. apply Hd. assumption.
+  - intros j e r Hj Hrr. pose proof (gi_recs _ _ _ _ _ _ G j _ r (heap_objs _ _ _ Hj) Hrr) as Ho.
+    destruct (objs_heap _ _ _ Ho) as (e' & He' & Eo). split; [|eauto].
+    intro Hi. rewrite (Hd _ Hi) in He'. discriminate.
+Qed.
+
+(* every destructor call belongs to a created buffer and happens at most once; when the client has released all its
+   references (balanced history) nothing is left in the heap and every created buffer was destroyed exactly once *)
+Theorem destructor_exactly_once : forall ops g, glegal g0 ops -> grun g0 ops = Some g ->
+  NoDup (dlog (g_st g)) /\ NoDup (g_created g) /\
+  (forall k, In k (dlog (g_st g)) -> In k (g_created g)) /\
+  ((forall k, g_held g k = 0%nat) ->
+     (forall k, heap (g_st g) k = None) /\ Permutation (g_created g) (dlog (g_st g))).
+Proof.
+  intros ops g Hl Hr. destruct (grun_inv ops g0 g GI_g0 Hl Hr) as [dom G].
+  destruct (gi_dinv _ _ _ _ _ _ G) as [Hnd Hd]. destruct (gi_cr _ _ _ _ _ _ G) as [Hnc Hc].
+  split; [assumption|]. split; [assumption|]. split; [intros k Hk; apply Hc; now left|].
+  intro Hbal.
+  assert (Hempty : forall k, heap (g_st g) k = None).
+  { intro k. destruct (heap (g_st g) k) as [e|] eqn:Hk; [exfalso|reflexivity].
+    destruct (gi_rc _ _ _ _ _ _ G _ _ Hk) as (Heq & Hpos). simpl in Heq. rewrite Hbal in Heq.
+    destruct (inrefs_pos (objs (g_st g)) dom k ltac:(lia)) as (j & dj & Hjd & Hoj & Hkj).
+    destruct (objs_heap _ _ _ Hoj) as (ej & Hj & Eej).
+    destruct (gi_rc _ _ _ _ _ _ G _ _ Hj) as (Heqj & Hposj). simpl in Heqj. rewrite Hbal in Heqj.
+    destruct (inrefs_pos (objs (g_st g)) dom j ltac:(lia)) as (j2 & d2 & Hj2d & Hoj2 & Hjj2).
+    unfold rids in Hjj2. apply in_map_iff in Hjj2. destruct Hjj2 as (r & Er & Hrr).
+    pose proof (gi_recs _ _ _ _ _ _ G j2 d2 r Hoj2 Hrr) as Hleaf. rewrite Er, Hoj in Hleaf.
+    assert (Ed : dj = DLeaf (r_obj r)) by congruence. rewrite Ed in Hkj. unfold rids in Hkj. simpl in Hkj. contradiction. }
+  split; [assumption|]. apply NoDup_Permutation; try assumption.
+  intro k. rewrite Hc. split; [|auto]. intros [?|[l E]]; [assumption|].
+  destruct (objs_heap _ _ _ E) as (e & He & _). rewrite Hempty in He. discriminate.
+Qed.
